@@ -930,6 +930,65 @@ def check_reuse_hyp(case, stats):
     check_reuse((tuple(Par(*p) for p in s1), tuple(Par(*p) for p in s2), form, sel), stats)
 
 
+def check_non_descriptors(stats):
+    """Binding on other kinds of callables: a modifier over something that is no descriptor (a class -- even one whose
+    instances are descriptors --, a callable object that hands unknown attributes on to the function it holds) is found
+    through a class and through its instances as it is, every time, with the same signature and the same results."""
+    import sigtools
+    from sigtools import modifiers
+    ns = {}
+    exec('class Field(object):\n'
+         '    def __init__(self, a, b=2):\n        self.got = {"a": a, "b": b}\n'
+         '    def __get__(self, instance, owner):\n        return ("field of", instance)\n'
+         '    def __eq__(self, other):\n        return type(other) is Field and other.got == self.got\n'
+         '    __hash__ = None\n'
+         'class Holder(object):\n'
+         '    def __init__(self, f):\n        self.f = f\n'
+         '    def __call__(self, *args, **kwargs):\n        return self.f(*args, **kwargs)\n'
+         '    def __getattr__(self, name):\n        return getattr(self.f, name)\n'
+         'def plain(a, b=2):\n    return {"a": a, "b": b}\n', ns)
+    objs = (('a class whose instances are descriptors', ns['Field']), ('a callable object that passes attribute lookups on to a function', ns['Holder'](ns['plain'])))
+    decos = (('autokwoargs', lambda: modifiers.autokwoargs), ("kwoargs('b')", lambda: modifiers.kwoargs('b')),
+             ("posoargs('a')", lambda: modifiers.posoargs('a')), ("kwoargs(start='b')", lambda: modifiers.kwoargs(start='b')))
+    calls = [((1,), {}), ((1,), {'b': 5}), ((1, 5), {}), ((), {'a': 1}), ((), {})]
+    for olabel, obj in objs:
+        for dlabel, deco in decos:
+            stats.case()
+            stats.cls('D/non-descriptor under a modifier')
+            case = {'part': 'D', 'object': olabel, 'decorator': dlabel}
+            try:
+                g = deco()(obj)
+                owner = type('Owner', (object,), {'m': g})
+                inst = owner()
+                views = []
+                for where, getter in (('directly', lambda: g), ('through the class', lambda: owner.m), ('through an instance', lambda: inst.m),
+                                      ('through the instance again', lambda: inst.m), ('through a second instance', lambda: owner().m)):
+                    x = getter()
+                    res = []
+                    for a, k in calls:
+                        try:
+                            r = x(*a, **k)
+                            res.append(getattr(r, 'got', r))
+                        except TypeError:
+                            res.append('TypeError')
+                    views.append((where, str(sigtools.signature(x)), str(inspect.signature(x)), res))
+            except Exception as e:
+                stats.fail('C18/D/raised-%s' % type(e).__name__, case, '%s over %s, stored on a class and looked up: %s: %s' % (dlabel, olabel, type(e).__name__, e))
+                continue
+            bad = [v for v in views[1:] if v[1:] != views[0][1:]]
+            if bad:
+                stats.fail('C18/D/lookup-changes-it', case, '%s over %s: used %s it has signature %s / %s and results %r, %s: %s / %s and %r' % (
+                    (dlabel, olabel) + views[0] + bad[0]))
+            else:
+                stats.nontriv(('D', olabel, dlabel))
+
+
+def shard_fixed(arg):
+    st = Stats()
+    check_non_descriptors(st)
+    return st
+
+
 def shard_reuse(arg):
     seed, n = arg
     st = Stats()
@@ -961,6 +1020,7 @@ def run(ctx):
     total.merge(ctx.pmap(shard_hyp, [(s, nh // 16) for s in ctx.shard_seeds(16)]))
     nm = ctx.pick(160, 3200)
     total.merge(ctx.pmap(machine_run, [(s, nm // 16) for s in ctx.shard_seeds(16)]))
+    total.merge(ctx.pmap(shard_fixed, [0]))
     nr = ctx.pick(3200, 64000)
     total.merge(ctx.pmap(shard_reuse, [(s + 70, nr // 16) for s in ctx.shard_seeds(16)]))
     alphabet_n = 9
@@ -979,6 +1039,8 @@ def replay(case, stats):
         check_orders_method(spec, [tuple(x) if not isinstance(x[1], list) else (x[0], x[1]) for x in case['steps']], stats)
     elif case.get('part') == 'B':
         run_history(case['history'], stats)
+    elif case.get('part') == 'D':
+        check_non_descriptors(stats)
     elif case.get('part') == 'C':
         check_reuse((tuple(Par(*p) for p in case['spec1']), tuple(Par(*p) for p in case['spec2']), case['form'], case['sel']), stats)
     else:
